@@ -1108,3 +1108,188 @@ Section Product.
     - apply IH. rewrite sys_step_other by exact N. exact H.
   Qed.
 End Product.
+
+(* ------------------------------------------------------------------ C16: an in-order fast-packet message on a fresh key returns
+   exactly the decode of its payload (in-order special case of DESIGN Appendix C, on this file's copy of fp_step) *)
+Fixpoint number (k : Z) (ds : list (list Z)) : list fr :=
+  match ds with [] => [] | d :: t => (k, d) :: number (k + 1) t end.
+Definition total_len (ds : list (list Z)) : Z := fold_right (fun d a => zlen d + a) 0 ds.
+
+Lemma has_number k k0 ds : k < k0 \/ k0 + zlen ds <= k -> has k (number k0 ds) = false.
+Proof.
+  revert k0. induction ds as [|d t IH]; intros k0 H; [reflexivity|]. cbn [number has].
+  unfold zlen in *. cbn [length] in H. rewrite Nat2Z.inj_succ in H.
+  destruct (Z.eqb_spec k k0); [lia|]. cbn [orb]. apply IH. lia.
+Qed.
+Lemma ins_number k0 ds d : ins (k0 + zlen ds) d (number k0 ds) = number k0 (ds ++ [d]).
+Proof.
+  revert k0. induction ds as [|d' t IH]; intros k0; cbn [number ins app].
+  - unfold zlen. cbn [length]. rewrite Z.add_0_r. reflexivity.
+  - unfold zlen in *. cbn [length]. rewrite Nat2Z.inj_succ.
+    destruct (Z.ltb_spec (k0 + Z.succ (Z.of_nat (length t))) k0); [lia|].
+    f_equal. replace (k0 + Z.succ (Z.of_nat (length t))) with (k0 + 1 + Z.of_nat (length t)) by lia. apply IH.
+Qed.
+Lemma payload_number k0 ds : payload_of (number k0 ds) = concat ds.
+Proof. revert k0. unfold payload_of. induction ds as [|d t IH]; intros k0; [reflexivity|]. cbn [number map concat snd]. rewrite IH. reflexivity. Qed.
+Lemma total_len_app2 a b : total_len (a ++ b) = total_len a + total_len b.
+Proof.
+  induction a as [|x t IH]; [reflexivity|].
+  unfold total_len in *. cbn [app fold_right]. rewrite IH. lia.
+Qed.
+Lemma total_len_app ds d : total_len (ds ++ [d]) = total_len ds + zlen d.
+Proof. rewrite total_len_app2. cbn [total_len fold_right]. lia. Qed.
+Lemma total_len_nonneg ds : 0 <= total_len ds.
+Proof. induction ds as [|x t IH]; cbn [total_len fold_right]; [lia | fold (total_len t); unfold zlen; lia]. Qed.
+
+Lemma hdr_own s k : 0 <= s < 8 -> 0 <= k < 32 -> ((s * 32 + k) / 32) mod 8 = s /\ (s * 32 + k) mod 32 = k.
+Proof.
+  intros. split.
+  - replace (s * 32 + k) with (k + s * 32) by ring. rewrite Z.div_add by lia. rewrite Z.div_small by lia.
+    rewrite Z.add_0_l. apply Z.mod_small; lia.
+  - replace (s * 32 + k) with (k + s * 32) by ring. rewrite Z.mod_add by lia. apply Z.mod_small; lia.
+Qed.
+
+(* a record that holds frames 0..n-1 of the message, in order *)
+Definition rec_of (sq total : Z) (ds : list (list Z)) : rec :=
+  {| frames := number 0 ds; plen := total; stored := total_len ds; rseq := sq |}.
+
+(* a later frame, in order, on such a record *)
+Lemma fp_next sq total ds d : 0 <= sq < 8 -> 0 < zlen ds < 32 -> total_len ds < total ->
+  fp_step (Some (rec_of sq total ds)) ((sq * 32 + zlen ds) :: d) = finish (rec_of sq total (ds ++ [d])).
+Proof.
+  intros Hs Hk Hlt. unfold fp_step. destruct (hdr_own sq (zlen ds) Hs) as [E1 E2]; [lia|]. rewrite E1, E2.
+  cbn [rec_of plen rseq frames stored].
+  destruct (Z.eqb_spec (zlen ds) 0); [lia|]. cbn [negb andb].
+  pose proof (total_len_nonneg ds). destruct (Z.eqb_spec total 0); [lia|].
+  rewrite Z.eqb_refl. cbn [negb].
+  rewrite has_number by lia.
+  replace (zlen ds) with (0 + zlen ds) at 1 by lia. rewrite ins_number.
+  unfold rec_of. rewrite total_len_app. reflexivity.
+Qed.
+(* the first frame on a fresh key *)
+Lemma fp_first st sq total d0 : 0 <= sq < 8 -> sq <> rseq (match st with Some r => r | None => new_rec end) ->
+  fp_step st ((sq * 32) :: total :: d0) = finish (rec_of sq total [d0]).
+Proof.
+  intros Hs Hf. destruct (hdr_own sq 0 Hs) as [E1 E2]; [lia|]. rewrite Z.add_0_r in E1, E2.
+  rewrite (fp_fresh st (sq * 32) total d0 E2) by (rewrite E1; exact Hf).
+  rewrite E1. unfold rec_of. cbn [number total_len fold_right]. rewrite Z.add_0_r. reflexivity.
+Qed.
+Lemma finish_pending sq total ds : total_len ds < total -> finish (rec_of sq total ds) = FpNothing (rec_of sq total ds).
+Proof. intros H. unfold finish. cbn [rec_of plen stored]. destruct (Z.leb_spec total (total_len ds)); [lia | reflexivity]. Qed.
+Lemma finish_complete sq total ds : total <= total_len ds ->
+  finish (rec_of sq total ds) = FpDeliver (rec_of sq total ds) (firstn (Z.to_nat total) (concat ds)).
+Proof.
+  intros H. unfold finish, delivered. cbn [rec_of plen stored frames].
+  destruct (Z.leb_spec total (total_len ds)); [|lia]. rewrite payload_number. reflexivity.
+Qed.
+
+Section InOrder.
+  Variable decode : Z -> Z -> result (option dmsg).
+  Variable is_fast : Z -> result (option bool).
+  Notation step := (ctl_step decode is_fast).
+  Notation cdec := (call_decode decode).
+
+  (* the calls of one message: key (p,s,d), constant clock input *)
+  Definition mk_call (p s d : Z) (w : bool) (data : list Z) : call :=
+    {| c_pgn := p; c_src := s; c_dst := d; c_data := data; c_win := w |}.
+  Fixpoint later_calls (p s d : Z) (w : bool) (sq k : Z) (ds : list (list Z)) : list call :=
+    match ds with [] => [] | x :: t => mk_call p s d w ((sq * 32 + k) :: x) :: later_calls p s d w sq (k + 1) t end.
+
+  Lemma inorder_rest c p s d w i sq total : p <> CLAIM -> is_fast p = Ok (Some true) -> 0 <= sq < 8 ->
+    forall rest seen st, 0 < zlen seen -> zlen seen + zlen rest <= 32 ->
+    klookup (p, s, d) (reasm st) = Some (rec_of sq total seen) ->
+    prefilter c st (mk_call p s d w []) = PreGo i ->
+    total_len seen < total ->
+    total_len (seen ++ removelast rest) < total ->
+    rest <> [] -> total <= total_len (seen ++ rest) ->
+    map snd (run decode is_fast c st (later_calls p s d w sq (zlen seen) rest)) =
+    map (fun _ => Ok None) (removelast rest) ++
+      [snd (cdec c (srcmap st) p s d (le_int (firstn (Z.to_nat total) (concat (seen ++ rest)))) i)].
+  Proof.
+    intros Np Hf Hs. induction rest as [|x rest IH]; intros seen st Hseen Hlen Hrec Hpre Hlt Hmid Hne Htot; [contradiction|].
+    cbn [later_calls run map].
+    assert (Pre : prefilter c st (mk_call p s d w ((sq * 32 + zlen seen) :: x)) = PreGo i).
+    { rewrite <- Hpre. apply prefilter_same_key; reflexivity. }
+    assert (Hseen32 : 0 < zlen seen < 32).
+    { unfold zlen in *. cbn [length] in Hlen. lia. }
+    unfold ctl_step at 1 2. rewrite Pre. cbn [mk_call c_pgn c_src c_dst c_data]. rewrite Hf, Hrec.
+    rewrite (fp_next sq total seen x Hs Hseen32 Hlt).
+    destruct rest as [|y rest'].
+    - (* last frame: delivery *)
+      rewrite finish_complete by exact Htot.
+      destruct (cdec c (srcmap st) p s d (le_int (firstn (Z.to_nat total) (concat (seen ++ [x])))) i) as [sm' res] eqn:CD.
+      cbn [snd fst later_calls run map removelast app]. reflexivity.
+    - (* a middle frame: stored, nothing returned *)
+      assert (Hm : total_len (seen ++ [x]) < total).
+      { change (removelast (x :: y :: rest')) with (x :: removelast (y :: rest')) in Hmid.
+        rewrite total_len_app2 in Hmid. cbn [total_len fold_right] in Hmid. fold (total_len (removelast (y :: rest'))) in Hmid.
+        pose proof (total_len_nonneg (removelast (y :: rest'))). rewrite total_len_app. lia. }
+      rewrite finish_pending by exact Hm. cbn [snd fst].
+      change (removelast (x :: y :: rest')) with (x :: removelast (y :: rest')). cbn [map app]. f_equal.
+      set (st' := {| reasm := kset (p, s, d) (rec_of sq total (seen ++ [x])) (reasm st); srcmap := srcmap st |}).
+      replace (zlen seen + 1) with (zlen (seen ++ [x])) by (unfold zlen; rewrite app_length; cbn [length]; lia).
+      replace (seen ++ x :: y :: rest') with ((seen ++ [x]) ++ y :: rest') by (rewrite <- app_assoc; reflexivity).
+      change (srcmap st) with (srcmap st').
+      apply IH.
+      + unfold zlen. rewrite app_length. cbn [length]. lia.
+      + unfold zlen in *. rewrite app_length. cbn [length] in *. lia.
+      + unfold st'. cbn [reasm]. rewrite klookup_kset, key_eqb_refl. reflexivity.
+      + rewrite <- Hpre. unfold prefilter. reflexivity.
+      + exact Hm.
+      + rewrite <- app_assoc. exact Hmid.
+      + discriminate.
+      + rewrite <- app_assoc. exact Htot.
+  Qed.
+End InOrder.
+
+Section InOrder2.
+  Variable decode : Z -> Z -> result (option dmsg).
+  Variable is_fast : Z -> result (option bool).
+  Notation cdec := (call_decode decode).
+
+  (* C16_fast_inorder: a complete in-order fast-packet message (first frame: counter, announced length, data d0;
+     then frames 1..n with data `rest`, the last one possibly padded) whose sequence counter differs from the one
+     stored for its key returns nothing until the last frame and then exactly the decode of its payload — the
+     announced number of bytes of the concatenated data — whatever the history was *)
+  Theorem c16_fast_inorder c st p s d w i sq total d0 rest :
+    p <> CLAIM -> is_fast p = Ok (Some true) -> 0 <= sq < 8 ->
+    sq <> rseq (rec_at st (p, s, d)) ->
+    prefilter c st (mk_call p s d w []) = PreGo i ->
+    zlen rest < 31 ->
+    (rest <> [] -> total_len (d0 :: removelast rest) < total) ->
+    total <= total_len (d0 :: rest) ->
+    map snd (run decode is_fast c st
+               (mk_call p s d w ((sq * 32) :: total :: d0) :: later_calls p s d w sq 1 rest)) =
+    map (fun _ => Ok None) (removelast (d0 :: rest)) ++
+      [snd (cdec c (srcmap st) p s d (le_int (firstn (Z.to_nat total) (concat (d0 :: rest)))) i)].
+  Proof.
+    intros Np Hf Hs Hfresh Hpre Hlen Hmid Htot.
+    cbn [run map].
+    assert (Pre : prefilter c st (mk_call p s d w ((sq * 32) :: total :: d0)) = PreGo i).
+    { rewrite <- Hpre. apply prefilter_same_key; reflexivity. }
+    unfold ctl_step at 1 2. rewrite Pre. cbn [mk_call c_pgn c_src c_dst c_data]. rewrite Hf.
+    unfold rec_at in Hfresh. rewrite (fp_first _ sq total d0 Hs Hfresh).
+    destruct rest as [|x rest'].
+    - rewrite finish_complete by exact Htot.
+      destruct (cdec c (srcmap st) p s d (le_int (firstn (Z.to_nat total) (concat [d0]))) i) as [sm' res].
+      reflexivity.
+    - assert (Hm : total_len [d0] < total).
+      { assert (Hn : x :: rest' <> []) by discriminate. specialize (Hmid Hn).
+        change (d0 :: removelast (x :: rest')) with ([d0] ++ removelast (x :: rest')) in Hmid.
+        rewrite total_len_app2 in Hmid. pose proof (total_len_nonneg (removelast (x :: rest'))). lia. }
+      rewrite finish_pending by exact Hm. cbn [snd fst].
+      change (removelast (d0 :: x :: rest')) with (d0 :: removelast (x :: rest')). cbn [map app]. f_equal.
+      set (st' := {| reasm := kset (p, s, d) (rec_of sq total [d0]) (reasm st); srcmap := srcmap st |}).
+      change 1 with (zlen [d0]). change (d0 :: x :: rest') with ([d0] ++ x :: rest').
+      change (srcmap st) with (srcmap st').
+      apply (inorder_rest decode is_fast c p s d w i sq total Np Hf Hs (x :: rest') [d0] st').
+      + reflexivity.
+      + unfold zlen in *. cbn [length] in *. lia.
+      + unfold st'. cbn [reasm]. rewrite klookup_kset, key_eqb_refl. reflexivity.
+      + rewrite <- Hpre. unfold prefilter. reflexivity.
+      + exact Hm.
+      + apply Hmid. discriminate.
+      + discriminate.
+      + exact Htot.
+  Qed.
+End InOrder2.
